@@ -113,13 +113,15 @@ def run(ctx):
                        "space, the emitted SQL's own column / table names, and cross-namespace collisions) x every accepted corpus query, every pair for the %d single-name patterns and every %d-th pair for the rest; each twin is compared with the "
                        "fresh-name twin of the same query.  non-trivial = twins of translatable queries with at least one adversarial name" % (len(patterns), dense, stride))
     seen = set()
+    known_culprits = {}
     for hid, ev, events, pos in rejected:
         sym = symptom(ev)
         pre = "%s/%s" % (sym, re.sub(r"[^a-z ]", "", (ev["twin_err"] or ev["diff"] or ev["panicmsg"]).lower().split(":")[0])[:50].strip().replace(" ", "-"))
-        if any(k.startswith(pre) for k in seen):
-            # same symptom already reported in this run: find out whether the same names cause it before paying for the minimisation
-            pass
+        # the same symptom with a culprit already established that this renaming contains: the same finding, no need to minimise again
+        if any(all(ev["adversarial"].get(k) == v for k, v in c.items()) for c in known_culprits.get(pre, [])):
+            continue
         cul = culprits(ctx, ev)
+        known_culprits.setdefault(pre, []).append(cul)
         key = "%s/%s" % (pre, "+".join(sorted("%s=%s" % (k.split(":")[0], name_class(v)) for k, v in cul.items())))
         if key in seen:
             continue
